@@ -131,6 +131,8 @@ pub fn intercept_output(xs: &mut Xstate, yes: bool) -> Xresult {
     if yes {
         let val = xs.get_var(xs.bitstr_mod.output)?;
         if val == &NIL {
+            // a fresh capture buffer: its length starts at zero as well
+            xs.set_var(xs.bitstr_mod.output_len, ZERO)?;
             xs.set_var(xs.bitstr_mod.output, Cell::from(Xbitstr::new()))?;
         }
     } else {
